@@ -89,6 +89,19 @@ def gen_cases(ctx):
             g = rand_gate(rng, 3, [kind])
             cases.append({"op": "opseq", "n": 3, "gates": [g, inverse_gate(g)], "a": rand_vec(rng, 3, "generic"), "b": rand_vec(rng, 3, "generic"),
                           "x": [ctx.randf(), ctx.randf()], "y": [ctx.randf(), ctx.randf()], "thr": rng.choice([10, 1]), "rt": True})
+    # linearity does not depend on magnitudes: combinations with a 1e-9 / 1e-12 scalar, inputs whose amplitudes are all (or partly) of
+    # order 1e-9 - a gate may not treat a small pair as "empty"
+    for kind in KINDS:
+        if kind == "U2": continue
+        for n in (2, 3):
+            pl = [p for p in placements(n, kind)]
+            for grp in ([p for p in pl if not p[1]], [p for p in pl if p[1]]):
+                if not grp: continue
+                ts, cs = rng.choice(grp)
+                g = {"kind": kind, "params": rand_params(rng, kind), "ts": list(ts), "cs": list(cs)}
+                for style, x in (("tiny", [float2bits(1.0), float2bits(0.0)]), ("generic", [float2bits(1e-9), float2bits(-2e-9)]), ("mixed", [float2bits(0.0), float2bits(1e-12)])):
+                    cases.append({"op": "opseq", "n": n, "gates": [g], "a": rand_vec(rng, n, style), "b": rand_vec(rng, n, "generic"),
+                                  "x": x, "y": [float2bits(0.0), float2bits(0.0)], "thr": rng.choice([10, 1]), "rt": False})
     # ... and at the parameter values where a gate degenerates into a simpler one (theta = 0: a pure phase; phi = 0: a plain rotation;
     # half and full turns): the documented inverse must still undo it
     for kind in ("RYP", "RYPdag"):
